@@ -35,6 +35,10 @@ def apply_op(fs, op, defs):
         if k == "update":
             d = defs[op["def"]]
             return ("ret", fs.updatefilter(op["name"], op["newname"], d["conditions"], d["actions"], d["matchtype"]))
+        if k == "replace" and op.get("from") is not None and fs.getfilter(op["from"]) is not None:
+            # the content object of another filter of the same set, handed over as it is
+            # (what the repository's test_replacefilter does): the two filters then share it
+            return ("ret", fs.replacefilter(op["name"], fs.getfilter(op["from"]), op.get("newname"), op.get("description")))
         if k == "replace":
             d = defs[op["def"]]
             if fs.getfilter(op["name"]) is None:
@@ -94,7 +98,8 @@ class Model:
                 return ("exc", "FilterAlreadyExists")
             it = self.items[i]
             it["name"] = new
-            it["def"] = op["def"]
+            src = self.find(op["from"]) if (k == "replace" and op.get("from") is not None) else -1
+            it["def"] = self.items[src]["def"] if src >= 0 else op["def"]
             if k == "replace" and op.get("description") is not None:
                 it["description"] = op["description"]
             return ("ret", True)
